@@ -108,8 +108,11 @@ impl MemoryAreas {
     self as *const Self
   }
 
+  /// The ROM bank currently visible at 0x4000-0x7fff, reduced to the number of
+  /// banks the cartridge actually has
   pub fn get_rom_bank(&self) -> usize {
-    self.cart_state.get_rom_bank()
+    let bank_count = (self.rom.len() / 0x4000).max(1);
+    self.cart_state.get_rom_bank() % bank_count
   }
 
   pub fn run_clock_cycles(&mut self, cycles: ClockCycles) {
@@ -169,7 +172,7 @@ pub fn get_executable_memory_slice<'s>(start: usize, mem_ptr: *const MemoryAreas
   match start {
     0x0000..=0x3fff => &mem.rom[start..0x4000],
     0x4000..=0x7fff => {
-      let bank_start = mem.cart_state.get_rom_bank() * 0x4000;
+      let bank_start = mem.get_rom_bank() * 0x4000;
       let bank_end = bank_start + 0x4000;
       let offset = (start & 0x3fff) + bank_start;
       &mem.rom[offset..bank_end]
@@ -204,7 +207,7 @@ pub extern "sysv64" fn memory_read_byte(areas: *const MemoryAreas, addr: u16) ->
   }
   if addr < 0x8000 { // ROM Bank NN
     let offset = addr as usize & 0x3fff;
-    return memory_areas.rom[0x4000 * memory_areas.cart_state.get_rom_bank() + offset];
+    return memory_areas.rom[0x4000 * memory_areas.get_rom_bank() + offset];
   }
   if addr < 0xa000 { // VRAM
     let offset = addr as usize & 0x1fff;
